@@ -31,12 +31,14 @@ def gemm (nd : Bool) (alpha beta : R) (a b c : Mat) : Outcome R :=
 /-- `c = blas::gemm(alpha, a, b)`: subarray::operator=(Range) asserts the sizes, then copy_n(gemm_iterator) calls gemm_n with beta = 0
     (an exception inside is re-thrown as another logic_error: still a throw) -/
 def gemmAssign (nd : Bool) (alpha : R) (a b c : Mat) : Outcome R :=
-  if ¬ nd = true ∧ ¬ (c.n0 = a.n0) then .assertFail 0
+  if ¬ nd = true ∧ gemmRangeChecksInner = true ∧ ¬ (a.n0 = 0) ∧ ¬ (a.n1 = b.n0) then .assertFail 0   -- gemm(ctxtp, s, a, b), when it checks
+  else if ¬ nd = true ∧ ¬ (c.n0 = a.n0) then .assertFail 0
   else gemm_n nd alpha 0 a b c
 
-/-- `c += blas::gemm(alpha, a, b)`: gemm_n with beta = 1, no size check of its own -/
+/-- `c += blas::gemm(alpha, a, b)`: gemm_n with beta = 1, no size check of its own beyond the one of the lazy gemm -/
 def gemmPlusEq (nd : Bool) (alpha : R) (a b c : Mat) : Outcome R :=
-  gemm_n nd alpha 1 a b c
+  if ¬ nd = true ∧ gemmRangeChecksInner = true ∧ ¬ (a.n0 = 0) ∧ ¬ (a.n1 = b.n0) then .assertFail 0
+  else gemm_n nd alpha 1 a b c
 
 /-! ### gemv (gemv.hpp:51-72, 96-100, 152-166) -/
 
@@ -112,11 +114,12 @@ def dotAsGemv (g : L1Call R) (r : Int) : GemvCall R :=
 
 /-- the value `core::dot` / `dotu` / `dotc` deliver for element type `ty` ('s','d','c','z'); `none` = the result cell is never
     written.  core.hpp:295 (float `dot`) and 357/362 (complex `dotu`) go through xGEMV, which returns at once when n = 0;
-    `ddot`, `cdotc`, `zdotc` are called directly and return the sum (0 for n ≤ 0). -/
+    `ddot`, `cdotc`, `zdotc` are called directly and return the sum (0 for n ≤ 0).  When the source guards the xGEMV calls with
+    `if(n == 0) {*rp = R{}; return;}` (`coreDotGemvGuardsEmpty`, read from core.hpp by the translator) the value 0 is delivered. -/
 def dotResult (ty : Char) (c : Call R) (mem : Mem R) : Option R :=
   match c with
-  | .dot g => if ty = 's' ∧ g.n ≤ 0 then none else some (dotVal false g.n g.x g.incx g.y g.incy mem)
-  | .dotu g => if g.n ≤ 0 then none else some (dotVal false g.n g.x g.incx g.y g.incy mem)
+  | .dot g => if ty = 's' ∧ g.n ≤ 0 ∧ coreDotGemvGuardsEmpty = false then none else some (dotVal false g.n g.x g.incx g.y g.incy mem)
+  | .dotu g => if g.n ≤ 0 ∧ coreDotGemvGuardsEmpty = false then none else some (dotVal false g.n g.x g.incx g.y g.incy mem)
   | .dotc g => some (dotVal true g.n g.x g.incx g.y g.incy mem)
   | _ => none
 
